@@ -96,7 +96,11 @@ uint32_t IPSecAH::header_size() const {
 
 void IPSecAH::write_serialization(uint8_t* buffer, uint32_t total_sz) {
     if (inner_pdu()) {
-        next_header(Internals::pdu_flag_to_ip_type(inner_pdu()->pdu_type()));
+        const uint8_t flag = Internals::pdu_flag_to_ip_type(inner_pdu()->pdu_type());
+        // Keep the current next header if we don't know the inner PDU's one
+        if (flag != 0xff) {
+            next_header(flag);
+        }
     }
     length(header_size() / sizeof(uint32_t) - 2);
     OutputMemoryStream output(buffer, total_sz);
